@@ -318,7 +318,13 @@ func init() {
 			if a[0].(VPtr).O == nil {
 				return VInt{IntC(0)} // math.Int{} (nil) - treated as zero
 			}
-			return VInt{bigVal(a[0])}
+			// math.Int holds at most 256 bits: the constructors from a big.Int panic beyond that
+			v := bigVal(a[0])
+			lim := IntB(new(big.Int).Lsh(big.NewInt(1), 256))
+			if ex.decide(Or(Ge(v, lim), Le(v, Neg(lim)))) {
+				panic(goPanic{"NewIntFromBigInt() out of bound"})
+			}
+			return VInt{v}
 		}
 		m["cosmossdk.io/math.NewIntFromBigIntMut"] = m["cosmossdk.io/math.NewIntFromBigInt"]
 		m["cosmossdk.io/math.NewIntWithDecimal"] = func(ex *Exec, fr *frame, cc *ssa.CallCommon, a []Value) Value {
